@@ -182,6 +182,21 @@ func runClientScenario(t *testing.T, sc *cliScenario, pickFn func(int) int) *cli
 				return "cbres", nil
 			}
 		}
+		// the inside of the transport write is a scheduling point whenever the Send is not serialised by the client's mutex
+		r.cch.midSend = func(b []byte) {
+			cli := r.cli
+			if cli == nil {
+				return
+			}
+			if mu := mutexOf(cli); mu != nil && mu.TryLock() {
+				mu.Unlock()
+				k := string(b)
+				if len(k) > 48 {
+					k = k[:48]
+				}
+				r.sched.hook("chan.send.mid", k, nil)
+			}
+		}
 		// the Logger is user code: park in it whenever the client's mutex is free (see srvRun.logPark)
 		opts.Logger = func(text string) {
 			cli := r.cli
